@@ -528,6 +528,8 @@ struct Oracle {
     after_own_err: u64,
     /// errors of the solver itself handed out while a fired fault was still pending
     own_err_after_fault: u64,
+    /// ... and where: (number of items / polls so far, class)
+    own_after_fault_at: Vec<(u64, ErrClass)>,
     done_seen: bool,
     ended_by: Option<EndedBy>,
     polls_after_end: u64,
@@ -594,6 +596,7 @@ fn judge_err(rt: &InstRt, ctx: &Ctx, e: &bacon_sci::ivp::IVPError, o: &mut Oracl
         // user's error never comes out, the run ends as `not-surfaced` (judge_none, the budgets,
         // and update_driving keeps polling while a fired fault is pending).
         o.own_err_after_fault += 1;
+        o.own_after_fault_at.push((o.polls, class));
         if o.ended_by.is_none() {
             o.ended_by = Some(EndedBy::SolverErr(class));
         }
@@ -1960,6 +1963,66 @@ fn execute_inner(spec: &RunSpec, budgets: &[Budget], opts: &ExecOpts) -> RunResu
     for rt in &rts {
         rt.stub.borrow_mut().nested_target = None;
     }
+    // An error of the solver itself handed out while a fired fault was pending is only innocent
+    // if it was computed BEFORE the failing call (an iterator working ahead of its consumer). Then
+    // the fault-free run of the same instance, which is identical up to that call, has the same
+    // error at the same place. If it does not, the error exists only because the derivative
+    // failed: the user's error was turned into (or preceded by) something else.
+    if !ctx.violated() {
+        for (i, rt) in rts.iter().enumerate() {
+            let at: Vec<(u64, ErrClass)> = rt.o.borrow().own_after_fault_at.clone();
+            let item_indexed = !matches!(
+                spec.instances[i].drive,
+                Drive::NthSkip(_) | Drive::Count | Drive::Last | Drive::CollectVec | Drive::ByRefCollect
+            );
+            if at.is_empty() || !item_indexed {
+                continue;
+            }
+            let s = RunSpec {
+                instances: vec![InstSpec {
+                    nested_every: 0,
+                    drive: Drive::Poll,
+                    extra_polls: 8,
+                    plan: FaultPlan::None,
+                    ..spec.instances[i].clone()
+                }],
+                sched_seed: 0,
+                phased: false,
+                solo_baselines: true,
+            };
+            let mut b = budgets.get(i).copied().unwrap_or(Budget::REFERENCE);
+            b.max_polls = b.max_polls.max(at.iter().map(|x| x.0).max().unwrap_or(0) + 16);
+            let r = execute(&s, &[b], &ExecOpts { record: false, keep_tail: 0, rec_polls: false, check_isolation: false, rec_items: true });
+            if r.violation.is_some() {
+                continue;
+            }
+            let items = &r.insts[0].items;
+            for (pos, class) in at {
+                let same = match items.get((pos as usize).wrapping_sub(1)) {
+                    Some(ItemRec::Err(c, _)) => *c == class,
+                    // the fault-free run was not driven that far: no verdict
+                    None => true,
+                    _ => false,
+                };
+                if !same {
+                    ctx.violate(
+                        "wrong-error",
+                        i as u32,
+                        format!(
+                            "after the derivative had returned Err (call {}), item {} was Err({}), an error of the solver itself that the fault-free run of the same configuration does not have at that place: it exists only because the derivative failed, and it is not the user's error",
+                            rt.stub.borrow().fired.first().map(|t| crate::stub::tag_call(*t)).unwrap_or(0),
+                            pos,
+                            class.name()
+                        ),
+                    );
+                    break;
+                }
+            }
+            if ctx.violated() {
+                break;
+            }
+        }
+    }
     // "collect_vec returns that error": a by-value collect_vec() that came back with an error of
     // the solver itself while a fault had fired is compared with the same instance driven by
     // next(): if the first Err a next()-driven consumer meets (from where the collect started)
@@ -1979,7 +2042,14 @@ fn execute_inner(spec: &RunSpec, budgets: &[Budget], opts: &ExecOpts) -> RunResu
                     ItemRec::Err(c, _) => Some(*c),
                     _ => None,
                 });
-                if r.violation.is_none() && first_err == Some(ErrClass::User) {
+                if let Some(v) = r.violation.as_ref() {
+                    // the same instance driven by next() already violates the property (e.g. an
+                    // error of the solver itself that exists only because the derivative failed):
+                    // collect_vec() handed out part of that
+                    if matches!(v.class, "wrong-error" | "not-surfaced") {
+                        ctx.violate(v.class, i as u32, format!("collect_vec() returned Err({}); driven by next(), the same instance: {}", class.name(), v.detail));
+                    }
+                } else if first_err == Some(ErrClass::User) {
                     ctx.violate(
                         "not-surfaced",
                         i as u32,
